@@ -250,6 +250,7 @@ struct Rw<'a> {
     sections: &'a BTreeMap<String, String>,
     rules: RefCell<BTreeMap<String, usize>>,
     loop_idx: Cell<usize>,
+    loop_headers: RefCell<Vec<String>>,
     closure_idx: Cell<usize>,
     call_idx: RefCell<BTreeMap<String, usize>>,
     let_idx: RefCell<BTreeMap<String, usize>>,
@@ -423,6 +424,12 @@ fn binop_name(op: &BinOp) -> Option<(&'static str, u8)> {
 }
 
 impl<'a, 'b> Collector<'a, 'b> {
+    fn record_header(&self, e: &Expr, body: &Block) {
+        let a = e.span().byte_range().start;
+        let b = body.brace_token.span.open().byte_range().start;
+        let h: String = self.rw.src[a..b].split_whitespace().collect::<Vec<_>>().join(" ");
+        self.rw.loop_headers.borrow_mut().push(h);
+    }
     fn loop_anchor(&mut self, body: &Block) {
         let idx = self.rw.loop_idx.get();
         self.rw.loop_idx.set(idx + 1);
@@ -598,6 +605,28 @@ impl<'a, 'b, 'ast> Visit<'ast> for Collector<'a, 'b> {
                     self.edits.push((r.start, r.end, t));
                 }
             }
+            Expr::Assign(a) if rw.index2 && matches!(&*a.left, Expr::Index(ix) if matches!(&*ix.index, Expr::Tuple(t) if t.elems.len() == 2)) => {
+                // R13: `m[(i, j)] = v` (IndexMut<(usize, usize)>) -> `m.set_at(i, j, v)`
+                if let Expr::Index(ix) = &*a.left {
+                    if let Expr::Tuple(t) = &*ix.index {
+                        let text = format!("{}.set_at({}, {}, {})", rw.render_expr(&ix.expr), rw.render_expr(&t.elems[0]), rw.render_expr(&t.elems[1]), rw.render_expr(&a.right));
+                        rw.count("R13");
+                        let sp = e.span().byte_range();
+                        self.edits.push((sp.start, sp.end, text));
+                    }
+                }
+            }
+            Expr::Binary(b) if rw.index2 && matches!(b.op, BinOp::AddAssign(_)) && matches!(&*b.left, Expr::Index(ix) if matches!(&*ix.index, Expr::Tuple(t) if t.elems.len() == 2)) => {
+                // R13: `m[(i, j)] += v` -> `m.add_at(i, j, v)`
+                if let Expr::Index(ix) = &*b.left {
+                    if let Expr::Tuple(t) = &*ix.index {
+                        let text = format!("{}.add_at({}, {}, {})", rw.render_expr(&ix.expr), rw.render_expr(&t.elems[0]), rw.render_expr(&t.elems[1]), rw.render_expr(&b.right));
+                        rw.count("R13");
+                        let sp = e.span().byte_range();
+                        self.edits.push((sp.start, sp.end, text));
+                    }
+                }
+            }
             Expr::Binary(b) if rw.ring && binop_name(&b.op).is_some() && !(rw.is_machine(&b.left) || rw.is_machine(&b.right)) => {
                 let (name0, kind) = binop_name(&b.op).unwrap();
                 let name = format!("{}{}", rw.fam(&[&b.left, &b.right]), name0);
@@ -658,6 +687,7 @@ impl<'a, 'b, 'ast> Visit<'ast> for Collector<'a, 'b> {
                 }
             }
             Expr::While(w) => {
+                self.record_header(e, &w.body);
                 self.loop_anchor(&w.body);
                 visit::visit_expr(self, e);
             }
@@ -666,6 +696,7 @@ impl<'a, 'b, 'ast> Visit<'ast> for Collector<'a, 'b> {
                 //   { let mut __itN = lo; let __hiN = hi; while __itN < __hiN  <invariant> decreases __hiN - __itN { let x = __itN; __itN += 1; B } }
                 // (this is rustc's desugaring specialised to Range<integer>; `continue` then needs no support in for-loops)
                 if let (Expr::Range(r), syn::Pat::Ident(pi)) = (&*w.expr, &*w.pat) {
+                    self.record_header(e, &w.body);
                     let idx = rw.loop_idx.get();
                     rw.loop_idx.set(idx + 1);
                     let lo = rw.render_expr(r.start.as_ref().unwrap());
@@ -684,10 +715,12 @@ impl<'a, 'b, 'ast> Visit<'ast> for Collector<'a, 'b> {
                 }
             }
             Expr::ForLoop(w) => {
+                self.record_header(e, &w.body);
                 self.loop_anchor(&w.body);
                 visit::visit_expr(self, e);
             }
             Expr::Loop(w) => {
+                self.record_header(e, &w.body);
                 self.loop_anchor(&w.body);
                 visit::visit_expr(self, e);
             }
@@ -787,6 +820,7 @@ fn extract_body(repo: &Path, source: &str, d: &Directive, variant: &str) -> Resu
         sections: &d.sections,
         rules: RefCell::new(rules),
         loop_idx: Cell::new(0),
+        loop_headers: RefCell::new(vec![]),
         closure_idx: Cell::new(0),
         call_idx: RefCell::new(BTreeMap::new()),
         let_idx: RefCell::new(BTreeMap::new()),
@@ -833,6 +867,30 @@ fn extract_body(repo: &Path, source: &str, d: &Directive, variant: &str) -> Resu
     if let Some(f) = rw.errors.borrow_mut().pop() {
         return Err(f);
     }
+    // loop-structure fingerprint: invariants are keyed by loop ordinal, so a body whose loops were added,
+    // removed or changed must not be verified with the recorded invariants (=> lost anchor, never an alarm)
+    {
+        let headers = rw.loop_headers.borrow();
+        if let Some(n) = d.opts.get("loops") {
+            if n.parse::<usize>().ok() != Some(headers.len()) {
+                return fail("anchor-lost", format!("selector {}: body has {} loops, overlay recorded {}", d.selector, headers.len(), n));
+            }
+        }
+        for (k, h) in headers.iter().enumerate() {
+            let key = format!("loop {k} header");
+            if let Some(want) = d.sections.get(&key) {
+                rw.used_sections.borrow_mut().push(key);
+                let w: String = want.split_whitespace().collect::<Vec<_>>().join(" ");
+                if &w != h {
+                    return fail("anchor-lost", format!("selector {}: loop {} header changed\n  recorded: {}\n  found:    {}", d.selector, k, w, h));
+                }
+            }
+        }
+        let has_loop_section = d.sections.keys().any(|k| k.starts_with("loop ") && !k.ends_with(" header"));
+        if has_loop_section && !d.opts.contains_key("loops") {
+            return fail("usage", format!("selector {}: loop sections need a loops=N option (structure fingerprint)", d.selector));
+        }
+    }
     // every section must have been consumed: a loop ordinal that no longer exists is a lost anchor
     for k in d.sections.keys() {
         if k != "sig" && !rw.used_sections.borrow().contains(k) {
@@ -840,6 +898,11 @@ fn extract_body(repo: &Path, source: &str, d: &Directive, variant: &str) -> Resu
         }
     }
     let loops = rw.loop_idx.get();
+    if std::env::var("VX_SHOW_LOOPS").is_ok() {
+        for (k, h) in rw.loop_headers.borrow().iter().enumerate() {
+            eprintln!("loop {k} header: {h}");
+        }
+    }
     let rules = rw.rules.borrow().clone();
     Ok(BodyOut {
         text,
